@@ -490,7 +490,31 @@ def r8_cluster_pointers_are_tail_offsets(cx):
         o.rule = "R8"
 
 
+def r2c_content_address_key_byte(cx):
+    """key byte of a content-address property: 0b0001_DPCC -- the P bit (pack id on two bytes) is set whenever
+    pack_id_size is U2, whether or not the column has a default value (D): under `pack_id_size = U2` no write of the
+    key byte is reachable without passing the `| 0b100`"""
+    F = cx.F
+    f = layout.find_ser(F, "creator::directory_pack::layout::property::Property")
+    b = F.body(f)
+    ca = next(v["discr"] for v in F.enum("prop_type::PropType")["variants"] if v["name"] == "ContentAddress")
+    u2 = next(v["discr"] for v in F.enum("byte_size::ByteSize")["variants"] if v["name"] == "U2")
+    pbit = [i for i, blk in enumerate(b.blocks) if not blk.get("cleanup") for st in blk["s"]
+            if st["k"] == "assign" and st["rv"]["k"] == "bin" and st["rv"]["op"] == "BitOr" and 4 in (op_const_val(st["rv"]["a"]), op_const_val(st["rv"]["b"]))]
+    writes = [(i, t) for i, t in b.calls(r"Serializer::write_u8$") if ("const", ca) in b.origins(t["args"][1]) or ("const", "bases::prop_type::PropType::ContentAddress") in b.origins(t["args"][1])]
+    if not writes:
+        # the marker may be folded differently: fall back on the arm that mentions pack_id_size
+        writes = [(i, t) for i, t in b.calls(r"Serializer::write_u8$") if ("field", "content_id_size") in b.origins(t["args"][1])]
+    if not pbit or len(writes) < 2:
+        raise AnchorLost("Property::serialize: content-address key byte (P bit sites %d, key byte writes %d)" % (len(pbit), len(writes)))
+    r, _ = b.explore(assume_discr={r"byte_size::ByteSize$": u2}, avoid=set(pbit) | b.error_blocks())
+    missed = sorted(t.get("ln") for i, t in writes if i in r)
+    cx.ob("R2", "R2/PropertyDef/content-address-P-bit", not missed, f,
+          "with pack_id_size = U2 every write of the content-address key byte (%d sites) comes after `| 0b0000_0100` (writes reachable without it: lines %s)" % (len(writes), missed))
+
+
 RULES = [
+    ("R2", r2c_content_address_key_byte, 1),
     ("R8", r8_cluster_pointers_are_tail_offsets, 3),
     ("R7", r7_plain_store_size_matches_data, 2),
     ("R1", r1_layouts, 80),
